@@ -5,9 +5,10 @@ EXTENDS Types, Json, SequencesExt
 VARIABLE done
 Cn(parts) == <<"cn", parts>>
 Base == { <<"ty", "/any">>, <<"ty", "/number">>, <<"ty", "/string">>, <<"ty", "/name">>, <<"ty", "/float64">>,
+          <<"ty", "/time">>, <<"ty", "/duration">>, <<"pre", <<"time", "zone">>>>, <<"pre", <<"duration">>>>,
           <<"pre", <<"foo">>>>, <<"pre", <<"foobar">>>>, <<"pre", <<"foo", "a">>>>, <<"pre", <<"num">>>>,
           <<"single", Num(1)>>, <<"single", Cn(<<"foo", "a">>)>>, <<"single", Str("x")>> }
-Small == { <<"ty", "/any">>, <<"ty", "/number">>, <<"ty", "/string">>, <<"ty", "/name">>, <<"pre", <<"foo">>>>, <<"pre", <<"foo", "a">>>>, <<"pre", <<"foobar">>>>, <<"single", Num(1)>> }
+Small == { <<"ty", "/any">>, <<"ty", "/number">>, <<"ty", "/string">>, <<"ty", "/name">>, <<"ty", "/time">>, <<"pre", <<"foo">>>>, <<"pre", <<"foo", "a">>>>, <<"pre", <<"foobar">>>>, <<"single", Num(1)>> }
 Depth1 ==
   {<<"union", <<a, b>>>> : a \in Small, b \in Small}
   \cup {<<"tpair", a, b>> : a \in Small, b \in Small}
@@ -21,7 +22,8 @@ Depth2 ==
   \cup {<<"union", <<<<"tlist", <<"ty", "/number">>>>, <<"tpair", <<"ty", "/any">>, <<"ty", "/any">>>>>>>>}
 AllTypes == Base \cup Depth1 \cup Depth2
 Universe ==
-  << Num(0), Num(1), Str("a"), Str("x"), Str("/foo"), <<"f", "1.5">>,
+  << Num(0), Num(1), Str("a"), Str("x"), Str("/foo"), <<"f", "1.5">>, Tm(1), Du(90),
+     Cn(<<"time">>), Cn(<<"time", "zone", "utc">>), Cn(<<"duration", "x">>),
      Cn(<<"foo">>), Cn(<<"foo", "a">>), Cn(<<"foo", "a", "b">>), Cn(<<"foobar">>), Cn(<<"foobar", "x">>), Cn(<<"num", "x">>), Cn(<<"number">>), Cn(<<"bar">>),
      Pair(Num(1), Str("a")), Pair(Cn(<<"foo", "a">>), Num(1)), Pair(Str("a"), Str("a")), Pair(Num(1), Cn(<<"foobar", "x">>)),
      List(<<>>), List(<<Num(1)>>), List(<<Num(1), Str("a")>>), List(<<Cn(<<"foo", "a">>)>>), List(<<Cn(<<"foobar", "x">>)>>), List(<<List(<<Num(1)>>)>>),
